@@ -108,6 +108,15 @@ var TryKind = Cello(TryKind, Instance(Cmp, TryKind_Cmp));
 struct PlainKind { int64_t domain, code; };
 var PlainKind = Cello(PlainKind);
 static var PlainK11, PlainK12, PlainK21;
+/* an object whose Show instance uses a complete try / throw / catch of its own: as an argument of a throw's message it runs
+   while that throw is being prepared - the exception that throw raises is still the one it was given */
+struct ShowTry { int64_t shown; };
+static int ShowTry_Show(var self, var out, int pos) {
+  struct ShowTry* st = self;
+  try { throw(KeyError, "inside show %i", $I(st->shown)); } catch (e in KeyError) { st->shown++; }
+  return print_to(out, pos, "<ShowTry>");
+}
+var ShowTry = Cello(ShowTry, Instance(Show, ShowTry_Show, NULL));
 /* ... and status codes: Int objects whose values agree in their low 32 bits (a facility in the high half), Strings in prefix relation */
 static var IntK7, IntK7a, IntK7b, IntK7c, StrKa, StrKb;
 #define NK 32
@@ -124,7 +133,8 @@ static void run_pairs(void) {
       if (dup && (fi + ti) % 3) continue;
       volatile int inner = 0, outer = 0, bound = -1, after = 0; volatile long d0 = depth_now();
       try {
-        if (!dup) { try { throw(K[ti], "pair %i %i", $I(fi), $I(ti)); } catch (e in K[fi]) { inner++; for (int k = 0; k < NK; k++) if (e == K[k]) bound = k; } }
+        if (!dup && (fi * 7 + ti) % 5 == 0) { try { throw(K[ti], "pair %i %$ %i", $I(fi), $(ShowTry, 0), $I(ti)); } catch (e in K[fi]) { inner++; for (int k = 0; k < NK; k++) if (e == K[k]) bound = k; } }
+        else if (!dup) { try { throw(K[ti], "pair %i %i", $I(fi), $I(ti)); } catch (e in K[fi]) { inner++; for (int k = 0; k < NK; k++) if (e == K[k]) bound = k; } }
         else { try { throw(K[ti], "pair %i %i", $I(fi), $I(ti)); } catch (e in K[fi], K[fi]) { inner++; for (int k = 0; k < NK; k++) if (e == K[k]) bound = k; } }
         after = 1;
       } catch (e) { outer++; for (int k = 0; k < NK; k++) if (e == K[k]) bound = k; }
